@@ -6,6 +6,7 @@ from ..pipeline import Leg
 ID = 'C07'
 HARNESS_BIN = 'c07'
 RUN_MODULE = 'Run.C07'
+COQ_EXTRA = ['Gen.C07Consts_ok']
 THEOREMS_PLANNED = ['C07_accounting', 'C07_disk_agrees', 'C07_lru_order', 'C07_get_is_use',
             'C07_too_large_refused', 'C07_never_wedges', 'C07_recency_survives_restart']
 ASSUMPTIONS = [
@@ -207,6 +208,13 @@ def neighbours(case):
                 o2 = list(op)
                 o2[2] = s
                 yield [cap, init, ops[:i] + [o2] + ops[i + 1:]]
+
+
+def translate(rep):
+    from translator import c07_consts
+    from .. import pipeline
+    consts = c07_consts.run(pipeline.REPO, pipeline.COQ)
+    rep.oblige('translate:TEMPFILE_PREFIX', True, repr(consts))
 
 
 def legs(tier):
